@@ -1,4 +1,5 @@
 import RsMatterVerif.Model.BtpLink
+import RsMatterVerif.Model.BtpRing
 import Driver.Util
 /-!
 Driver for C18.  Replays the scheduler / injection operations of the harness on `Model/BtpLink`
@@ -50,8 +51,15 @@ structure Ghost where
   fetchedCaps : List Nat := []
   lastRxAt : Nat := 0
   initiator : Bool := false
+  /-- the 14 window fields the implementation reported last for this end -/
+  impl : List Nat := []
 
 structure St where
+  /-- kind `r`: the model of the ring buffer (`Model/BtpRing.lean`) and, independently, the
+  specification: a bounded FIFO of bytes -/
+  ring : Option Ring := none
+  ringN : Nat := 0
+  ringQ : List Nat := []
   link : Link := {}
   ga : Ghost := {}
   gb : Ghost := {}
@@ -84,6 +92,23 @@ def resPart (out : String) : String :=
   match out.splitOn " | " with
   | r :: _ => r.trimAscii.toString
   | [] => out
+
+/-- state part of an implementation output `<res> | f0,…,f13` -/
+def implFields (out : String) : List Nat :=
+  match out.splitOn " | " with
+  | _ :: f :: _ => (f.trimAscii.toString.splitOn ",").map (fun x => x.toNat?.getD 0)
+  | _ => []
+
+/-- established with an exhausted send window, according to the implementation's own report -/
+def exhausted (g : Ghost) : Bool :=
+  g.impl.length == 14 && g.impl.getD 3 0 == 1 && g.impl.getD 4 1 == 0
+
+/-- **deadlock**: both ends are established, both send windows are exhausted, nothing is in flight
+in either direction and a message is waiting to be sent: no acknowledgement can ever be sent again,
+the message handed to the transport can never come out at the other side -/
+def deadlocked (ga gb : Ghost) (qab qba : List (List Nat)) : Bool :=
+  exhausted ga && exhausted gb && qab.isEmpty && qba.isEmpty &&
+    (ga.impl.getD 12 0 > 0 || gb.impl.getD 12 0 > 0)
 
 /-- prefix check with per-message truncation caps -/
 def prefixCapped : List (List Nat) → List Nat → List (List Nat) → Bool
@@ -166,9 +191,34 @@ def verdict (ora : Option String) (model impl : String) : String :=
   | some why => s!"ORA {why}"
   | none => if model = impl then "ok" else s!"DIS {model}"
 
+def obsStr (o : RingObs) : String :=
+  s!"{hex o.out} {o.len} {o.free} {b2n o.full} {b2n o.empty}"
+
+def parseRingOp : List String → Option RingOp
+  | ["rpush", hx] => some (.push (unhex hx))
+  | ["rpop", k] => some (.pop (k.toNat?.getD 0))
+  | ["rpushb", b] => some (.pushByte (b.toNat?.getD 0 % 256))
+  | ["rpopb"] => some .popByte
+  | ["rclear"] => some .clear
+  | _ => none
+
 def step (st : St) (line : String) : St × String :=
   let (op, out) := splitArrow line
   match words op with
+  | ["case", _, "r", ns] =>
+    let n := ns.toNat?.getD 1
+    ({ ring := some (Ring.new n), ringN := n, ringQ := [] }, "case")
+  | "rpush" :: _ | "rpop" :: _ | "rpushb" :: _ | "rpopb" :: _ | "rclear" :: _ =>
+    match st.ring, parseRingOp (words op) with
+    | some r, some rop =>
+      let (r', mo) := r.step rop
+      -- specification: the bounded byte FIFO, evaluated on the implementation's own output
+      let (q', so) := qStep st.ringN st.ringQ rop
+      let ora := if out = "panic" then some "panic"
+        else if out ≠ obsStr so then some s!"ring buffer: the implementation answered '{out}', a byte queue of capacity {st.ringN} answers '{obsStr so}'"
+        else none
+      ({ st with ring := some r', ringQ := q' }, verdict ora (obsStr mo) out)
+    | _, _ => (st, "BAD ring op")
   | "case" :: _ :: kind :: ia :: ib :: ga :: gb :: ra :: rb :: _ =>
     let n (s : String) := s.toNat?.getD 0
     let ea : End := { s := Session.fresh (n ia = 1) (n ra = 1), gattMtu := optMtu (n ga) }
@@ -191,7 +241,8 @@ def step (st : St) (line : String) : St × String :=
     match parseSide xs with
     | none => (st, "BAD side")
     | some x =>
-      let g := st.ghost x
+      let g0 := st.ghost x
+      let g := if (implFields out).length == 14 then { g0 with impl := implFields out } else g0
       if g.dead then (st, if out = "dead" then "ok" else "DIS dead") else
       let res := resPart out
       let e := st.link.get x
@@ -230,6 +281,9 @@ def step (st : St) (line : String) : St × String :=
           | none =>
             if res = "none" && ackOverdue g st.now && g.view.outstanding < g.view.window then
               (g, some "an acknowledgement is overdue and the send window has room, but nothing was sent")
+            else if res = "none" && st.wellBehaved &&
+                deadlocked g (st.ghost x.other) (st.link.inq .b) (st.link.inq .a) then
+              (g, some "deadlock: both send windows are exhausted with nothing in flight and a message waiting - no acknowledgement can ever be sent")
             else (g, none)
         let ora := wb why (res.startsWith "err")
         (markDead ({ st with link := l'' }.setGhost x g'), verdict ora mo out)
